@@ -315,6 +315,18 @@ func consume(c *core.Ctx, stream []byte, plan core.ReaderPlan, maxCalls int) {
 	d := verifhook.NewCborDecoder(src.r)
 	eff := effective(stream, plan)
 	clean := plan.ErrAt < 0
+	// history: byte strings handed out earlier must stay intact while decoding continues
+	type kept struct{ got, want []byte }
+	var earlier []kept
+	defer func() {
+		if c.Oracle("C12") {
+			for i, k := range earlier {
+				if !bytes.Equal(k.got, k.want) {
+					c.Violation("result-changed-later", "DecodeByteString", "the byte string returned by call %d was modified by later calls", i)
+				}
+			}
+		}
+	}()
 	for i := 0; i < maxCalls; i++ {
 		pos := sr.Consumed()
 		major, _, _, _, _ := refcbor.Head(eff, pos)
@@ -337,6 +349,9 @@ func consume(c *core.Ctx, stream []byte, plan core.ReaderPlan, maxCalls int) {
 			if r.err == nil && plan.ErrAt >= 0 && plan.ErrKind != 1 && sr.Consumed() > plan.ErrAt {
 				c.Violation("read-error-swallowed", callNames[k], "consumed past the injected error")
 			}
+		}
+		if r.err == nil && k == callBytes {
+			earlier = append(earlier, kept{r.b, append([]byte(nil), r.b...)})
 		}
 		if r.err != nil {
 			c.Outcome("error@" + callNames[k])
